@@ -10,6 +10,7 @@ CHECKS['C10'] = {
             'block, or an escaped name; distinct = fingerprint of (manifest text, src, relocate)',
     'assumptions': ['reference interpreter written from doc/architecture/manifest-format'],
     'units': [
-        unit('gomanifest', 'manifest', '^TestVerifC10', {'shards': 8, 'checks': 1500}, {'shards': 16, 'checks': 60000, 'timeout': 1500}),
+        unit('gomanifest', 'manifest', '^TestVerifC10', {'shards': 6, 'checks': 600}, {'shards': 8, 'checks': 40000, 'timeout': 2400}, crash_is_violation=True),
+        unit('loader', 'arvados', '^TestVerifC10', {'shards': 6, 'checks': 600}, {'shards': 8, 'checks': 40000, 'timeout': 2400}, crash_is_violation=True),
     ],
 }
